@@ -12,6 +12,12 @@ while IFS=$'\t' read -r name file subst funcs expect; do
   [ -z "$name" ] && continue
   case "$name" in \#*) continue;; esac
   if [ -n "$only" ] && [[ "$name" != *"$only"* ]]; then continue; fi
+  if [ -n "${MUTANT_FUNCS:-}" ]; then
+    hit=0
+    IFS=',' read -ra FS_ <<< "$funcs"
+    for f_ in "${FS_[@]}"; do case ",$MUTANT_FUNCS," in *",$f_,"*) hit=1;; esac; done
+    [ $hit = 1 ] || continue
+  fi
   n=$((n+1))
   rm -rf "$SCR/repo"; mkdir -p "$SCR/repo"
   rsync -a --exclude .git /repo/ "$SCR/repo/"
